@@ -30,11 +30,19 @@ Section Work.
   (* FileState::empty(): what a path has when the table knows nothing about it *)
   Definition empty_state : fstate := mk_fstate (hc []) 0 false.
 
-  (* blob::get_file_ticket — the modification-time shortcut *)
+  (* *assumed != FileState::empty() *)
+  Definition is_empty_state (st : fstate) : bool :=
+    teqb (fs_t st) (hc []) && (fs_mtime st =? 0) && negb (fs_x st).
+
+  (* the modification-time shortcut applies: same time, and something is remembered at all *)
+  Definition shortcut (f : file) (assumed : fstate) : bool :=
+    (f_mtime f =? fs_mtime assumed) && negb (is_empty_state assumed).
+
+  (* blob::get_file_ticket *)
   Definition get_file_ticket (w : world) (p : bytes) (assumed : fstate) : option T :=
     match fget w p with
     | None => None
-    | Some f => if f_mtime f =? fs_mtime assumed then Some (fs_t assumed) else Some (hc (f_content f))
+    | Some f => if shortcut f assumed then Some (fs_t assumed) else Some (hc (f_content f))
     end.
 
   (* blob::get_actual_file_state *)
@@ -42,7 +50,7 @@ Section Work.
     match fget w p with
     | None => None
     | Some f =>
-        Some (mk_fstate (if f_mtime f =? fs_mtime assumed then fs_t assumed else hc (f_content f))
+        Some (mk_fstate (if shortcut f assumed then fs_t assumed else hc (f_content f))
                         (f_mtime f) (f_exec f))
     end.
 
@@ -209,6 +217,15 @@ Section Work.
     | Ok ts => Ok (mk_wr ts b SourceOnly None)
     end.
 
+  (* Blob::forget_replaced_file_states: what was remembered about a file that ruler itself has just
+     replaced (recovered from the cache) says nothing about the new file *)
+  Fixpoint forget_replaced (b : blob) (ress : list resolution) : blob :=
+    match b, ress with
+    | (p, st) :: brest, r :: rrest =>
+        (p, match r with Recovered => empty_state | _ => st end) :: forget_replaced brest rrest
+    | _, _ => b
+    end.
+
   (* work::handle_rule_node. Returns the thread's result, the world afterwards and the script lines
      that were executed. *)
   Definition handle_rule (w : world) (b : blob) (h : history) (sources_ticket : T) (command : list bytes)
@@ -221,6 +238,7 @@ Section Work.
     match resolved with
     | Err e => (Err e, w, [])      (* the world changes made before a resolution error are not modelled: the error needs a missing cache directory *)
     | Ok (ress, w1) =>
+        let b := forget_replaced b ress in
         if needs_rebuild ress then
           let script := script_lines command in
           let (codes, w2) := run_script w1 script in
@@ -264,6 +282,9 @@ Arguments RDone {T}.
 Arguments RNotThere {T}.
 Arguments RCacheMissing {T}.
 Arguments empty_state {T}.
+Arguments is_empty_state {T}.
+Arguments shortcut {T}.
+Arguments forget_replaced {T}.
 Arguments get_file_ticket {T}.
 Arguments get_actual_file_state {T}.
 Arguments back_up {T}.
